@@ -311,6 +311,9 @@ func (c *Client) Step(op adapt.Op, got adapt.Outcome) []Diff {
 	case adapt.OpForceOff:
 		c.Fail = ""
 		return nil
+	case adapt.OpSetMetrics:
+		// canned ItemCollectionMetrics of BatchWriteItem outputs: no effect on tables, items or the failure switch
+		return wantClass(op, got, adapt.ClsOK)
 	}
 	dataOp := false
 	switch op.Kind {
